@@ -192,6 +192,277 @@ def logForward (p : Params α) (e0 : Emis α) (sites : List (Site α)) : LogFwd 
   let r := logLoop p sites f0
   { logLik := f0 :: r.1, partials := r.2, ll := sumL (sortDesc r.2) }
 
+/-! ## RescaledHmmLikelihood::computeBackward_ and posteriors (RescaledHmmLikelihood.cpp:224-366) -/
+
+def onesV (p : Params α) : List α := vec p.n (fun _ => one)
+def mulV (a b : List α) : List α := List.zipWith (fun x y => x * y) a b
+
+/-- `backLikelihood_[i-1]` from `backLikelihood_[i]` (= `bnext`), the emissions and the scale of
+site `i`: `x += e[k] * trans[jj+k] * back[i][k]` with `trans[jj+k] = Pij(j,k)`, then `x / scales_[i]`
+(no guard on the division); all ones at a reset -/
+def backStep (p : Params α) (brk : Bool) (e : Emis α) (c : α) (bnext : List α) : List α :=
+  if brk then onesV p
+  else vec p.n (fun j => dot (vec p.n (fun k => e k * p.P j k)) bnext / c)
+
+/-- the loop `for i = T-1 … 1` written as a recursion on the sites `i, i+1, …` (the tail is
+computed first, exactly the order of the C++ loop); result: `back[i-1], back[i], …, back[T-1]` -/
+def backAll (p : Params α) : List (Bool × Emis α × α) → List (List α)
+  | [] => [onesV p]
+  | (b, e, c) :: rest =>
+    match backAll p rest with
+    | [] => []
+    | bn :: r => backStep p b e c bn :: bn :: r
+
+/-- `es` = emissions of the sites 1 … T-1, `scales` = `scales_` (all sites) -/
+def rescBackward (p : Params α) (es : List (Emis α)) (scales : List α) (bps : List Nat) : List (List α) :=
+  backAll p (List.zip (bwdFlags es.length bps.reverse).reverse (List.zip es scales.tail))
+
+/-- `probs[i][j] = likelihood_[i*n+j] * backLikelihood_[i][j]` -/
+def posteriorOf (lik back : List (List α)) : List (List α) := List.zipWith mulV lik back
+
+def rescPosterior (p : Params α) (e0 : Emis α) (es : List (Emis α)) (bps : List Nat) : List (List α) :=
+  let fw := rescForward p e0 (mkSites es bps)
+  posteriorOf fw.lik (rescBackward p es fw.scales bps)
+
+/-- `getLikelihoodForASite`: `Σ_i probs[i] * e(site, i)` -/
+def siteLik (p : Params α) (post : List α) (e : Emis α) : α := dot post (vec p.n e)
+
+/-! ## LogsumHmmLikelihood::computeBackward_ and posteriors (LogsumHmmLikelihood.cpp:205-376) -/
+
+def zerosV (p : Params α) : List α := vec p.n (fun _ => zero)
+
+def logBackStep (p : Params α) (brk : Bool) (e : Emis α) (bnext : List α) : List α :=
+  if brk then zerosV p
+  else vec p.n (fun j => lseL (List.zipWith (fun a b => a + b) (vec p.n (fun k => log (e k) + log (p.P j k))) bnext))
+
+def logBackAll (p : Params α) : List (Bool × Emis α) → List (List α)
+  | [] => [zerosV p]
+  | (b, e) :: rest =>
+    match logBackAll p rest with
+    | [] => []
+    | bn :: r => logBackStep p b e bn :: bn :: r
+
+def logBackward (p : Params α) (es : List (Emis α)) (bps : List Nat) : List (List α) :=
+  logBackAll p (List.zip (bwdFlags es.length bps.reverse).reverse es)
+
+/-- index into `partialLogLikelihoods_` used by `getHiddenStatesPosteriorProbabilities` for the
+sites `i, i+1, …` (lines 348-362: `if (i == nextBrkPt) { logLikIt++; bpIt++; … }`) -/
+def logPostIdx (nbSites : Nat) : Nat → Nat → List Nat → Nat → List Nat
+  | 0, _, _, _ => []
+  | cnt + 1, i, bps, idx =>
+    if i == nextBrk nbSites bps then (idx + 1) :: logPostIdx nbSites cnt (i + 1) bps.tail (idx + 1)
+    else idx :: logPostIdx nbSites cnt (i + 1) bps idx
+
+/-- index used by `getHiddenStatesPosteriorProbabilitiesForASite` (lines 320-329) -/
+def logPostIdx1 (site : Nat) : List Nat → Nat
+  | [] => 0
+  | b :: bs => if b ≤ site then 1 + logPostIdx1 site bs else 0
+
+/-- `exp(logLikelihood_[i*n+j] + backLogLikelihood_[i][j] - partial)`; `none` = the iterator
+`logLikIt` is dereferenced past the end of `partialLogLikelihoods_` (undefined behaviour) -/
+def logPostRow (f b : List α) (partial? : Option α) : Option (List α) :=
+  partial?.map (fun pl => List.zipWith (fun x y => exp (x + y - pl)) f b)
+
+/-! ## RescaledHmmLikelihood::computeDForward_ (RescaledHmmLikelihood.cpp:370-476)
+
+Transcribed for the correspondence and for the cache state machine; no theorem is stated about the
+value.  `pow(x, 2)` is `x * x` (that is what the harness build, `g++ -O1`, emits for it). -/
+
+structure RescDFwd (α : Type) where
+  dLik : List (List α)
+  dScales : List α
+  dLogLik : α
+
+/-- from `tmp`, `dTmp` and `scales_[i]`: (dLikelihood_[i], dScales_[i], dLScales[i]) -/
+def rescDSite (tmp dTmp : List α) (c : α) : List α × α × α :=
+  let ds := sumL dTmp
+  (List.zipWith (fun dt t => (dt * c - t * ds) / (c * c)) dTmp tmp, ds, ds / c)
+
+/-- `tmp`, `dTmp` at a site ≥ 1 (lines 428-459); the reset branch (and the initialisation) use
+`eqFreq[j]`, not `Σ_k eqFreq[k]·P(k,j)` as `computeForward_` does -/
+def rescDTmp (p : Params α) (brk : Bool) (e de : Emis α) (prevLik prevDLik : List α) : List α × List α :=
+  if brk then (vec p.n (fun j => e j * p.pi j), vec p.n (fun j => de j * p.pi j))
+  else
+    (vec p.n (fun j => e j * dot (col p j) prevLik),
+     vec p.n (fun j => de j * dot (col p j) prevLik + e j * sumL (mulV (col p j) prevDLik)))
+
+/-- per site ≥ 1: (flag, emissions, their derivative, likelihood_[i-1], scales_[i]) -/
+def rescDLoop (p : Params α) : List (Bool × Emis α × Emis α × List α × α) → List α → List (List α × α × α)
+  | [], _ => []
+  | (b, e, de, prevLik, c) :: rest, prevDLik =>
+    let t := rescDTmp p b e de prevLik prevDLik
+    let r := rescDSite t.1 t.2 c
+    r :: rescDLoop p rest r.1
+
+def zip5 {β γ δ ε ζ : Type} : List β → List γ → List δ → List ε → List ζ → List (β × γ × δ × ε × ζ)
+  | a :: as, b :: bs, c :: cs, d :: ds, e :: es => (a, b, c, d, e) :: zip5 as bs cs ds es
+  | _, _, _, _, _ => []
+
+/-- `fw` = the cached result of `computeForward_` (likelihood_, scales_) -/
+def rescDForward (p : Params α) (e0 : Emis α) (es : List (Emis α)) (de0 : Emis α) (des : List (Emis α))
+    (bps : List Nat) (fw : RescFwd α) : RescDFwd α :=
+  let c0 := fw.scales.headD zero
+  let t0 := rescDTmp p true e0 de0 [] []
+  let r0 := rescDSite t0.1 t0.2 c0
+  let flags := fwdFlags (es.length + 1) es.length 1 bps
+  let r := r0 :: rescDLoop p (zip5 flags es des fw.lik fw.scales.tail) r0.1
+  { dLik := r.map (·.1), dScales := r.map (·.2.1), dLogLik := sumL (sortDesc (r.map (·.2.2))) }
+
+/-! ## The cache state machine of the likelihood objects
+
+`Tables` = what the alphabet / transition matrix / emission objects answer at a given time (the
+parameter plumbing itself — `ParameterList::matchParametersValues` — is not modelled: an update is
+"the tables change, then `fireParameterChanged` runs"). -/
+
+structure Tables (α : Type) where
+  p : Params α
+  e0 : Emis α
+  es : List (Emis α)
+  /-- `getDEmissionProbabilities` after `computeDEmissionProbabilities(variable)` -/
+  dE : String → Emis α × List (Emis α)
+
+/-- answers; `exc` = an exception reaches the caller -/
+inductive Ans (α : Type) where
+  | exc
+  | val (x : α)
+  | mat (m : List (List α))
+
+inductive Op (α : Type) where
+  /-- `setParameterValue` / `setParameters`: new tables, then `fireParameterChanged` -/
+  | setTables (t : Tables α)
+  | setBreaks (bps : List Nat)
+  | logLik
+  | posterior
+  /-- `getFirstOrderDerivative(var)` -/
+  | d1 (var : String)
+
+/-! ### RescaledHmmLikelihood -/
+
+structure RescObj (α : Type) where
+  tab : Tables α
+  bps : List Nat
+  fw : RescFwd α
+  back : List (List α)
+  backUpToDate : Bool
+  dVar : String
+  dfw : RescDFwd α
+
+/-- `computeForward_`: `none` = throws (negative / NaN transition probability) before writing anything -/
+def rescCompute (t : Tables α) (bps : List Nat) : Option (RescFwd α) :=
+  if transOk t.p then some (rescForward t.p t.e0 (mkSites t.es bps)) else none
+
+def emptyD : RescDFwd α := { dLik := [], dScales := [], dLogLik := zero }
+
+/-- the constructor; `none` = it throws -/
+def RescObj.build (t : Tables α) : Option (RescObj α) :=
+  (rescCompute t []).map (fun fw =>
+    { tab := t, bps := [], fw := fw, back := [], backUpToDate := false, dVar := "", dfw := emptyD })
+
+def RescObj.step (o : RescObj α) : Op α → RescObj α × Ans α
+  | .setTables t =>
+    -- fireParameterChanged (RescaledHmmLikelihood.cpp:73): the sub-objects already hold the new values
+    let o1 := { o with tab := t, dVar := "" }
+    match rescCompute t o.bps with
+    | none => (o1, .exc)
+    | some fw => ({ o1 with fw := fw, backUpToDate := false }, .val fw.logLik)
+  | .setBreaks bps =>
+    -- setBreakPoints (RescaledHmmLikelihood.h:176)
+    let o1 := { o with bps := bps, dVar := "" }
+    match rescCompute o.tab bps with
+    | none => (o1, .exc)
+    | some fw => ({ o1 with fw := fw, backUpToDate := false }, .val fw.logLik)
+  | .logLik => (o, .val o.fw.logLik)
+  | .posterior =>
+    -- getHiddenStatesPosteriorProbabilities (RescaledHmmLikelihood.cpp:346)
+    let o1 := if o.backUpToDate then o
+      else { o with back := rescBackward o.tab.p o.tab.es o.fw.scales o.bps, backUpToDate := true }
+    (o1, .mat (posteriorOf o1.fw.lik o1.back))
+  | .d1 var =>
+    -- AbstractHmmLikelihood::getFirstOrderDerivative (HmmLikelihood.cpp:33)
+    if var != o.dVar then
+      let de := o.tab.dE var
+      let d := rescDForward o.tab.p o.tab.e0 o.tab.es de.1 de.2 o.bps o.fw
+      ({ o with dVar := var, dfw := d }, .val (-d.dLogLik))
+    else (o, .val (-o.dfw.dLogLik))
+
+/-- what a fresh object built from the current tables (with the break points set) answers -/
+def rescSpec (t : Tables α) (bps : List Nat) : Op α → Ans α
+  | .setTables _ | .setBreaks _ | .logLik => .val (rescForward t.p t.e0 (mkSites t.es bps)).logLik
+  | .posterior => .mat (rescPosterior t.p t.e0 t.es bps)
+  | .d1 var =>
+    let de := t.dE var
+    .val (-(rescDForward t.p t.e0 t.es de.1 de.2 bps (rescForward t.p t.e0 (mkSites t.es bps))).dLogLik)
+
+/-! ### LogsumHmmLikelihood (forward, backward, posteriors; its derivative recursions are not modelled) -/
+
+structure LogObj (α : Type) where
+  tab : Tables α
+  bps : List Nat
+  fw : LogFwd α
+  back : List (List α)
+  backUpToDate : Bool
+
+def logCompute (t : Tables α) (bps : List Nat) : LogFwd α := logForward t.p t.e0 (mkSites t.es bps)
+
+def LogObj.build (t : Tables α) : LogObj α :=
+  { tab := t, bps := [], fw := logCompute t [], back := [], backUpToDate := false }
+
+/-- all rows of `getHiddenStatesPosteriorProbabilities`; `none` = `logLikIt` runs past the end -/
+def logPosteriorOf (fw : LogFwd α) (back : List (List α)) (bps : List Nat) : Option (List (List α)) :=
+  let T := fw.logLik.length
+  let idx := logPostIdx T T 0 bps 0
+  (List.zip (List.zip fw.logLik back) idx).mapM (fun x => logPostRow x.1.1 x.1.2 fw.partials[x.2]?)
+
+def logPosterior (t : Tables α) (bps : List Nat) : Option (List (List α)) :=
+  logPosteriorOf (logCompute t bps) (logBackward t.p t.es bps) bps
+
+def LogObj.step (o : LogObj α) : Op α → LogObj α × Ans α
+  | .setTables t =>
+    -- fireParameterChanged (LogsumHmmLikelihood.cpp:71)
+    let fw := logCompute t o.bps
+    ({ o with tab := t, backUpToDate := false, fw := fw }, .val fw.ll)
+  | .setBreaks bps =>
+    let fw := logCompute o.tab bps
+    ({ o with bps := bps, fw := fw, backUpToDate := false }, .val fw.ll)
+  | .logLik => (o, .val o.fw.ll)
+  | .posterior =>
+    let o1 := if o.backUpToDate then o
+      else { o with back := logBackward o.tab.p o.tab.es o.bps, backUpToDate := true }
+    (o1, match logPosteriorOf o1.fw o1.back o1.bps with | some m => .mat m | none => .exc)
+  | .d1 _ => (o, .exc)   -- not modelled
+
+def logSpec (t : Tables α) (bps : List Nat) : Op α → Ans α
+  | .setTables _ | .setBreaks _ | .logLik => .val (logCompute t bps).ll
+  | .posterior => match logPosterior t bps with | some m => .mat m | none => .exc
+  | .d1 _ => .exc
+
+/-! ### LowMemoryRescaledHmmLikelihood (no posteriors, no derivatives) -/
+
+structure LowObj (α : Type) where
+  tab : Tables α
+  bps : List Nat
+  maxSize : Nat
+  logLik : α
+  dVar : String
+
+def lowCompute (t : Tables α) (maxSize : Nat) (bps : List Nat) : α :=
+  lowForward t.p maxSize t.e0 (mkSites t.es bps)
+
+/-- `none` = the constructor throws (`maxSize = 0`) -/
+def LowObj.build (t : Tables α) (maxSize : Nat) : Option (LowObj α) :=
+  if maxSize == 0 then none
+  else some { tab := t, bps := [], maxSize := maxSize, logLik := lowCompute t maxSize [], dVar := "" }
+
+def LowObj.step (o : LowObj α) : Op α → LowObj α × Ans α
+  | .setTables t => let ll := lowCompute t o.maxSize o.bps; ({ o with tab := t, logLik := ll }, .val ll)
+  | .setBreaks bps => let ll := lowCompute o.tab o.maxSize bps; ({ o with bps := bps, logLik := ll }, .val ll)
+  | .logLik => (o, .val o.logLik)
+  | .posterior => (o, .exc)
+  | .d1 var =>
+    -- getFirstOrderDerivative stores the name, then computeDLikelihood_ throws NotImplementedException:
+    -- a second call with the same name answers -dLogLik_ = -0
+    if var != o.dVar then ({ o with dVar := var }, .exc) else (o, .val (-zero))
+
 /-! ## Specification: sum over all hidden paths -/
 
 /-- all sequences of `T` hidden states -/
